@@ -11,7 +11,7 @@ import C07 as G
 PID = "C18"
 CLUSTER = "Sorter"
 PROPS = "props/C18.v"
-N_QUICK = 260
+N_QUICK = 200
 N_THOROUGH = 4000
 LEVEL_TEXT = ("partial: Coq theorems about a model of the sorter's I/O protocol (files, descriptors, handles; every I/O call a "
               "step that may fail once) for all workloads and all fault positions, tied to /repo by running the real "
